@@ -172,20 +172,44 @@ def isotope_control(ctx, rep, clause):
                  {'element': each(lambda t: t.endswith('.items()'), (0,)),
                   'isotope_label': each(lambda t: t.endswith('.items()'), (1,))})
     relabel_guard(g, rep, clause)
-    txt = ' '.join(norm_stmt(s) for s in ast.walk(g.node) if isinstance(s, (ast.Assign, ast.AugAssign, ast.Delete)))
-    ok = 'composition[isotope_label] += composition[element]' in txt and \
-         'composition[isotope_label] = composition[element]' in txt and 'del composition[element]' in txt
-    ob(rep, 'SIB-isotope', g.fq, 'the whole count of the element moves to the isotope key', ok,
-       'add to / create the label key, delete the element key', 'the substitution no longer moves the complete count',
-       g.loc(), clause)
+    # the count moves *onto* whatever the label key already holds: a plain store into composition[isotope_label] must be
+    # unreachable when the label key is present (decided over {label present, label absent})
+    stores = [x for x in ast.walk(g.node) if isinstance(x, (ast.Assign, ast.AugAssign)) and
+              norm_stmt(x.targets[0] if isinstance(x, ast.Assign) else x.target) == 'composition[isotope_label]']
+    moved = bool(stores)
+    overwrite = None
+    cg_ = Canon(g.node)
+    for st in stores:
+        if isinstance(st, ast.AugAssign):
+            continue
+        reads_old = any(norm_stmt(y) in ('composition[isotope_label]', 'composition.get(isotope_label, 0)',
+                                         'composition.get(isotope_label)') for y in ast.walk(st.value))
+        if reads_old:
+            continue
+        ge = GuardEval({'isotope_label in composition': True, 'isotope_label not in composition': False}, cg_.aliases())
+        reachable = True
+        for t, pol in dominating_tests(g.node, st):
+            v = ge.eval(t)
+            if v is not UNK and bool(v) != pol:
+                reachable = False
+        if reachable:
+            overwrite = st
+    ob(rep, 'SIB-isotope', g.fq, 'the whole count of the element moves to the isotope key', moved and overwrite is None,
+       'added to an existing label count, created otherwise',
+       (f'`{norm_stmt(overwrite)[:80]}` can run when the label key is already present and replaces its count: a '
+        f'modification that holds both the plain element and the labelled isotope (Formula:[13C2]C3H4) loses the atoms '
+        f'it had under the label' if overwrite is not None else 'the substitution no longer moves the complete count'),
+       g.loc(overwrite) if overwrite is not None else g.loc(), clause)
 
 
 def relabel_guard(g, rep, clause):
     """the move element -> label runs for every element the composition lists with a non-zero count (modifications
     that remove atoms give negative counts): decided over the finite set of cases {absent, negative, positive}"""
     dels = [n for n in ast.walk(g.node) if isinstance(n, ast.Delete) and norm_stmt(n.targets[0]) == 'composition[element]']
+    dels += [n for n in ast.walk(g.node) if isinstance(n, ast.Call) and norm_stmt(n.func) == 'composition.pop' and n.args
+             and norm_stmt(n.args[0]) == 'element']
     if len(dels) != 1:
-        raise AnalysisError('apply_isotope_mods_to_composition: `del composition[element]` not found')
+        raise AnalysisError('apply_isotope_mods_to_composition: the removal of the element key (del / pop) was not found')
     loop = None
     for n in walk_own(g.node):
         if isinstance(n, ast.For) and any(x is dels[0] for x in ast.walk(n)):
